@@ -172,3 +172,78 @@ Proof.
   destruct (pair_of_strings_roundtrip so o OK opt optpair sep ta tb r a b SA SB DR NE NB ST SP SH) as (s & S & D').
   exists s. split; [exact S|]. split; [exact D'|]. apply PL. exact S.
 Qed.
+
+(* ------------------------------------------------------------------ Pair of ANY scalar halves *)
+
+(* str(int) / repr(float) contain no newline or tab either *)
+Definition str_oracles_plain (so : soracles) : Prop :=
+  (forall z, ~ In NL (o_str_int so z) /\ ~ In TAB (o_str_int so z))
+  /\ (forall f, ~ In NL (o_str_float so f) /\ ~ In TAB (o_str_float so f)).
+
+Lemma encode_plain s : ~ In BS s -> ~ In NL s -> ~ In TAB s -> encode s = s.
+Proof.
+  intros NB NN NT. rewrite encode_flat_map. induction s as [|c s IH]; [reflexivity|]. cbn [flat_map].
+  rewrite IH by (intros H; first [apply NB; now right|apply NN; now right|apply NT; now right]).
+  unfold esc.
+  destruct (c =? BS) eqn:E1; [apply Z.eqb_eq in E1; exfalso; apply NB; now left|].
+  destruct (c =? NL) eqn:E2; [apply Z.eqb_eq in E2; exfalso; apply NN; now left|].
+  destruct (c =? TAB) eqn:E3; [apply Z.eqb_eq in E3; exfalso; apply NT; now left|]. reflexivity.
+Qed.
+
+Definition image_or_plain (s : str) : Prop :=
+  (exists y, s = encode y) \/ (~ In BS s /\ ~ In NL s /\ ~ In TAB s).
+
+Lemma image_or_plain_fix s : image_or_plain s -> encode (decode s) = s.
+Proof.
+  intros [(y & ->)|(A & B & C)]; [now rewrite decode_encode_lemma|].
+  rewrite (decode_no_bs s A). now apply encode_plain.
+Qed.
+
+Lemma serialize_scalar_image so o (OK : str_oracles_ok so o) (PL : str_oracles_plain so) t v s :
+  scalar t = true -> serialize so o false t v = SStr s -> image_or_plain s.
+Proof.
+  destruct PL as [PI PF]. unfold serialize.
+  assert (forall y, image_or_plain (encode y)) as IM by (intros y; left; now exists y).
+  assert (image_or_plain []) as IN by (apply (IM [])).
+  destruct t; cbn [scalar]; try discriminate; intros _ HS; cbn [serialize_gen] in HS.
+  - destruct v; cbn in HS; try discriminate; injection HS as E; subst s; auto.
+  - destruct v; cbn in HS; try discriminate; injection HS as E; subst s; auto.
+  - destruct v; try discriminate; injection HS as E; subst s; auto.
+    right. destruct (int_plain so o OK z) as [A _]. destruct (PI z). auto.
+  - destruct v; try discriminate; injection HS as E; subst s; auto.
+    right. destruct (float_plain so o OK f) as [A _]. destruct (PF f). auto.
+  - assert (image_or_plain s_true /\ image_or_plain s_false) as [IT IF].
+    { split; right; unfold s_true, s_false, BS, NL, TAB; cbn; intuition discriminate. }
+    destruct v as [| | | | | |[]| | | |]; try discriminate; injection HS as E; subst s; auto.
+  - destruct v; try discriminate; try destruct (mem_str _ _); injection HS as E; subst s; auto.
+  - destruct v; try discriminate; injection HS as E; subst s; auto.
+  - destruct v; try discriminate; injection HS as E; subst s; auto.
+Qed.
+
+Lemma scalar_half so o (OK : str_oracles_ok so o) (PL : str_oracles_plain so) t raw v :
+  scalar t = true -> deserialize o t raw = Ok v ->
+  (forall opt, t = TBoolean opt -> v <> VNone) ->
+  exists x, half_ok so o t v x.
+Proof.
+  intros SC D NB. destruct (scalar_roundtrip_lemma so o OK t raw v SC D NB) as (s & S & D').
+  exists (decode s). unfold half_ok.
+  rewrite (image_or_plain_fix s (serialize_scalar_image so o OK PL t v s SC S)). auto.
+Qed.
+
+(* Pair of any two scalar halves (String, Secret, Integer/Port, Float, Boolean, LogColor,
+   LogLevel, Path -- wrapped or not): in range + unambiguous joined text => round trip.
+   [x1], [x2] are the decoded texts of the halves. *)
+Lemma pair_of_scalars_roundtrip so o (OK : str_oracles_ok so o) (PL : str_oracles_plain so)
+      opt optpair sep ta tb r1 r2 a b :
+  scalar ta = true -> scalar tb = true ->
+  deserialize o ta r1 = Ok a -> deserialize o tb r2 = Ok b ->
+  (forall op, ta = TBoolean op -> a <> VNone) -> (forall op, tb = TBoolean op -> b <> VNone) ->
+  sep <> [] -> ~ In BS sep ->
+  forall x1 x2, half_ok so o ta a x1 -> half_ok so o tb b x2 ->
+  strip (x1 ++ sep ++ x2) = x1 ++ sep ++ x2 ->
+  split_once sep (x1 ++ sep ++ x2) = Some (x1, x2) ->
+  (optpair = true -> encode x1 = encode x2 ->
+   x1 <> [] /\ strip x1 = x1 /\ split_once sep x1 = None) ->
+  exists s, serialize so o false (TPair opt optpair sep ta tb) (VPair a b) = SStr s
+            /\ deserialize o (TPair opt optpair sep ta tb) s = Ok (VPair a b).
+Proof. intros. eapply pair_roundtrip_lemma; eauto. Qed.
